@@ -530,6 +530,26 @@ def well_formed(desc: dict[str, Any]) -> tuple[bool, str]:
     return True, "ok"
 
 
+def affected_ranks(desc: dict[str, Any]) -> set[int]:
+    """Ranks that own a defective communication operation (either end of an unmatched or
+    duplicated message, the rank of a self-send); for a cycle: every communicating rank."""
+    sends, recvs = comm_ops(desc)
+    out: set[int] = set()
+    for key, lst in list(sends.items()) + list(recvs.items()):
+        if key[0] == key[1] or len(lst) > 1:
+            out.update(key[:2])
+    for key in sends:
+        if key not in recvs:
+            out.update(key[:2])
+    for key in recvs:
+        if key not in sends:
+            out.update(key[:2])
+    if not out:
+        for key in list(sends) + list(recvs):
+            out.update(key[:2])
+    return out
+
+
 def fresh_tag(desc: dict[str, Any]) -> Any:
     used = {repr(it["tag"]) for it in desc["items"] if "tag" in it}
     k = 7000
